@@ -107,6 +107,15 @@ fn verif_grid() {
     g.case("input", || match q(DEF, "SELECT input, a FROM t WHERE a = 1", &["a=1 b= s=x", "a=2 b=2", "a=1 b=1"]) {
         Outcome::Lines(l, _) => if l == vec![r#"{"input":"a=1 b= s=x","a":1}"#.to_owned(), r#"{"input":"a=1 b=1","a":1}"#.to_owned()] { Ok(()) } else { Err(format!("SELECT input, a WHERE a = 1 printed {:?}", l)) },
         other => Err(format!("{:?}", other)) });
+    // a name that is not bound on the row (unknown column, a column under the name of another table) has no value: an error, not some other column
+    for (i, query) in ["SELECT nosuch FROM t", "SELECT other.a FROM t", "SELECT t.nosuch FROM t", "SELECT a FROM t WHERE other.a = 1", "SELECT a FROM t WHERE a = 2 OR x.b = 2", "SELECT a + nosuch.b AS v FROM t",
+                       "SELECT tt.a FROM t", "SELECT a.a FROM t", "SELECT t.t.a FROM t", "SELECT upper(other.s) AS u FROM t"].into_iter().enumerate() {
+        g.case(&format!("unknown-column-{}", i), move || match q(DEF, query, &["a=1 b=2 s=x"]) {
+            Outcome::Error(_) => Ok(()), other => Err(format!("{} names a column that the row does not have: an error is due, got {:?}", query, other)) });
+    }
+    g.case("qualified-column", || match q(DEF, "SELECT t.a, t.s AS q FROM t WHERE t.b = 2", &["a=1 b=2 s=x", "a=2 b=3 s=y"]) {
+        Outcome::Lines(l, _) => if l == vec![r#"{"t.a":1,"q":"x"}"#.to_owned()] { Ok(()) } else { Err(format!("SELECT t.a, t.s AS q WHERE t.b = 2 printed {:?}", l)) },
+        other => Err(format!("{:?}", other)) });
     // REAL values compare numerically: -0.0 = 0.0, adjacent doubles differ, exactly one of <, =, > holds
     {
         let def = "CREATE TABLE t(line = '^x=(\\\\S+) y=(\\\\S+)$', line[1] => x REAL, line[2] => y REAL);";
